@@ -276,6 +276,19 @@ fn check(c: &Case, obs: &mut Obs) -> Result<(), String> {
                 if g.mul(&bm0) != res {
                     return Err(format!("{what}: g*m != m' for the accumulated operations g"));
                 }
+                // a second elimination of the result: same rank, still echelon, same row space; the
+                // fully reduced form is unique, so it is a fixed point
+                {
+                    let mut m3 = m.clone();
+                    let r3 = guarded(&format!("{what} applied to its own result"), || m3.gauss_x(full, bs, &mut ()))?;
+                    let res3 = BM::of(&m3)?;
+                    if r3 != rank || echelon(&res3, full).is_err() || res3.rref() != rref0 {
+                        return Err(format!("{what}: eliminating the result a second time gives rank {r3} / a different row space or no echelon form; matrix {d:?}"));
+                    }
+                    if full && res3 != res {
+                        return Err(format!("{what}: the reduced echelon form is not a fixed point of the elimination; matrix {d:?}"));
+                    }
+                }
                 // non-trivial: pivot column not at a block boundary with a deficient rank
                 if rank < rows.min(cols) && piv.iter().any(|p| p % bs != 0) {
                     obs.nontrivial_key((bs as u64) << 1 | full as u64);
